@@ -247,7 +247,11 @@ func ExtractAction(a of.Action) (*rec.Rec, error) {
 			}
 			ls.SetT("kind", kind).Set("n_bits", n)
 			if src != 0 && out == 0 {
-				ls.SetB("value", s.SrcValue)
+				v := s.SrcValue
+				if need := 2 * ((int(n) + 15) / 16); len(v) > need { // only the first 2*ceil(n_bits/16) bytes of the buffer are the immediate
+					v = v[:need]
+				}
+				ls.SetB("value", v)
 			} else if s.SrcField != nil {
 				ls.Set("src", headerWord(s.SrcField.Field)).Set("src_ofs", uint64(s.SrcField.Ofs))
 			} else {
